@@ -34,7 +34,7 @@ def BOUNDS(tier):
 
 
 def REQUIRED_COVER(tier):
-    return {'opt:plain', 'opt:idx+crc+cache', 'enc:b64', 'enc:HEX', 'entry:Builder', 'entry:Slice', 'exotic', 'cells:257', 'payload:65536', 'objects'}
+    return {'opt:plain', 'opt:idx+crc+cache', 'enc:b64', 'enc:HEX', 'entry:Builder', 'entry:Slice', 'exotic', 'cells:257', 'payload:65536', 'objects', 'failure-history'}
 
 
 def shards(tier, seed, objects=True):
@@ -47,6 +47,7 @@ def shards(tier, seed, objects=True):
     out += [{'fn': 'shard_one', 'args': {'name': n}, 'prio': 9} for n in heavy]
     if objects:
         out += [{'fn': 'shard_objects', 'args': {'part': p, 'parts': 8}} for p in range(8)]
+        out.append({'fn': 'shard_failure_histories', 'args': {}})
     return out
 
 
@@ -181,6 +182,52 @@ def shard_objects(rec, part, parts):
                 for j in range(n):
                     if i != j:
                         case_objects(rec, name, i, j, unshared)
+
+
+def shard_failure_histories(rec):
+    """sixth session (wave 9): a REFUSED bag, then a valid one - through every entry point and input form.  For every damaged bag d of
+    bocfam.damaged_bags (each refused at another point of the parse) x every valid serialisation v of a sample of the family x option sets:
+    parse d (whatever it does), then parse v: the result is v's tree.  Nothing of a failed parse may survive into the next one."""
+    from pytoniq_core.boc import Cell, Slice, Builder
+    import base64
+    fam = dict(bocfam.family(rec.tier, rec.seed))
+    names = [n for n in fam if n.startswith('shape:2') or n.startswith('exotic1:0') or n.startswith('twin') or n.startswith('standfor:slots')][:14]
+    bad = bocfam.damaged_bags(rec.seed)
+    entries = [('Cell/bytes', lambda d: Cell.one_from_boc(d)), ('Cell/hex', lambda d: Cell.one_from_boc(d.hex())), ('Cell/b64', lambda d: Cell.one_from_boc(base64.b64encode(d).decode())),
+               ('Slice/bytes', lambda d: Slice.one_from_boc(d).to_cell()), ('Cell.from_boc', lambda d: Cell.from_boc(d)[0])]
+    for name in names:
+        rc = fam[name]()
+        root = to_lib(rc)
+        for oi in (0, len(bocfam.OPTION_SETS) - 1):
+            opts = bocfam.OPTION_SETS[oi]
+            data = root.to_boc(**opts)
+            for bname, bbytes in bad:
+                for ename, parse in entries:
+                    rec.case('failure-history')
+                    rec.state(('failhist', name, oi, bname, ename))
+                    rec.nontriv(('failhist', name, oi, bname, ename))
+                    rec.trans(2)
+                    try:
+                        parse(bbytes)
+                        refused = False
+                    except Exception:
+                        refused = True
+                    args = {'name': name, 'oi': oi, 'bad': bname, 'entry': ename}
+                    try:
+                        got = parse(data)
+                    except Exception as e:
+                        rec.violation(f'failure-history:raises', f'{name} [{bocfam.opt_name(opts)}] parsed through {ename} right after the damaged bag "{bname}" was '
+                                      f'{"refused" if refused else "ACCEPTED"}: {exc_name(e)}: {e}', 'shard_failure_histories', args)
+                        rec.outcome('HISTORY')
+                        continue
+                    rec.trace()
+                    if got.hash != rc.hash() or lib_canon(got) != RC.canon(rc):
+                        rec.violation(f'failure-history:other-tree', f'{name} [{bocfam.opt_name(opts)}] parsed through {ename} right after the damaged bag "{bname}": another tree came back',
+                                      'shard_failure_histories', args)
+                        rec.outcome('HISTORY')
+                        continue
+                    rec.outcome('ok')
+    rec.covered('failure-history')
 
 
 def shard_names(rec, part, parts):
